@@ -21,7 +21,7 @@ PROPS = {
               "(table class, load decile, tombstones present, log2 buckets, at-full-load) x operation kind, counted as a set across shards"),
         lanes=dict(
             quick=lanes(("dbg", 10, 20000), ("generic", 6, 20000)),
-            thorough=lanes(("dbg", 16, 240000), ("generic", 16, 240000)),
+            thorough=lanes(("dbg", 16, 240000), ("generic", 16, 240000), ("asan", 8, 120000), ("miri", 8, 180000)),
         ),
         require=["rehash_in_place", "resize_grow", "steps_with_tombstones", "class_lt_group", "class_eq_group", "class_gt_group", "steps_at_full_load"],
         assumptions=COMMON_ASSUME,
@@ -49,7 +49,7 @@ PROPS = {
               "plus find() of every stored element and I1-I5 after every call. distinct = table-state signature x operation kind"),
         lanes=dict(
             quick=lanes(("dbg", 10, 15000), ("generic", 6, 15000)),
-            thorough=lanes(("dbg", 16, 180000), ("generic", 16, 180000), ("miri", 8, 120000)),
+            thorough=lanes(("dbg", 16, 180000), ("generic", 16, 180000), ("asan", 8, 120000), ("miri", 8, 120000)),
         ),
         require=["rehash_in_place", "resize_grow", "steps_with_tombstones", "steps_with_duplicates", "class_lt_group", "class_gt_group"],
         assumptions=COMMON_ASSUME,
